@@ -39,7 +39,7 @@ TOK = st.one_of(
     st.integers(0, 9).map(lambda i: " %d " % i),
     st.sampled_from(["", " ", "-", "1-", "-1", "a", "1a", "+1", "0x1", "1_0", "１", "1-2-3", "--",
                      "99999999999999999999", "0-99999999", "1.0", "٣", "1 2", "-0", "00", "007",
-                     "1e0", "\t2", "2\t"]))
+                     "1e0", "\t2", "2\t", "1--2", "0--0", "2--1", "0--1", "-1-2", "1- -1"]))
 
 
 @st.composite
@@ -83,6 +83,15 @@ def strategy(tier):
 
 
 _PLAIN = re.compile(r"^[ ]*(\d+)[ ]*(?:-[ ]*(\d+)[ ]*)?$", re.ASCII)
+
+
+_NEG = re.compile(r"(^|-)\s*-\s*\d")
+
+
+def has_negative_bound(reply):
+    """some token has a bound written as a negative number ('-1', '1--2', '-1-2'): whatever
+    the reading, a negative index is not within the list, so the reply must be rejected"""
+    return any(_NEG.search(tok.strip()) for tok in reply.split(","))
 
 
 def plain_indices(reply):
@@ -233,6 +242,12 @@ def run_case(case):
                         reply, sorted(idx), sorted(restored), r1.code, r1.err[-200:]), reply=rcls, **tags)
         elif reply == "" and restored:
             out.fail("empty_reply_restored", "restored %s" % restored, **tags)
+        elif has_negative_bound(reply):
+            rcls = "negative_bound"
+            if restored or r1.code == 0:
+                out.fail("negative_bound_accepted", "reply %r has a negative bound (never within "
+                         "[0..%d]) but restored %s, exit %d" % (reply, n - 1, restored, r1.code),
+                         reply=rcls, **tags)
         out.classes.append("reply:" + rcls)
         if n >= 3 and reply.count(",") >= 1:
             shape = re.sub(r"\d+", "N", reply)
@@ -268,6 +283,9 @@ def fn_level(out, case, tags):
             if not valid and got is not None:
                 out.fail("fn_range", "parse_indexes(%r, %d) accepted out-of-range indices: %r" % (
                     reply, n, got), reply="out_of_range", **tags)
+        elif got is not None and has_negative_bound(reply):
+            out.fail("fn_negative_bound", "parse_indexes(%r, %d) accepted a negative bound: %r" % (
+                reply, n, got), reply="negative_bound", **tags)
         elif got is not None and any(not (0 <= i < n) for i in got):
             out.fail("fn_range", "parse_indexes(%r, %d) returned out-of-range %r" % (reply, n, got),
                      reply="other", **tags)
